@@ -268,6 +268,13 @@ Definition ok (ms : modes) (c : conv) : bool :=
       end
   end.
 
+(* constructor bodies [__init__(self, p1, .., pn)]: variable 0 is the object
+   being built (converter-allocated, reaches nothing of the caller), nothing is
+   assumed about the parameters; checked like a copy=True body *)
+Definition ctor_ae : aenv := [(0, {| afresh := true; aclean := true; asame := false |})].
+Definition ok_ctor (ms : modes) (s : stmt) : bool :=
+  match check ms true s ctor_ae with Some _ => true | None => false end.
+
 (* summary table: declared modes; the [sclean] bits are computed by
    iterating the checker downwards from "all clean" *)
 Definition table := list (conv * cmode).
@@ -545,3 +552,180 @@ Definition run_pyramid_ids (n_src n_pix : Z) (factors4 : option (list Z)) (given
 
 Definition run_pm_native (be : bool) (m : Z) (arr : list (list (list (list Z)))) : val :=
   vz_list (pm_native be (Z.to_nat m) arr).
+
+(* ------------------------------------------------------------------ *)
+(** * Part 8: SOPClass.__init__ (base.py): file meta and mandatory modules *)
+(* ------------------------------------------------------------------ *)
+
+(* transfer syntax argument: 0 absent (-> Implicit VR Little Endian), 1 implicit
+   LE, 2 explicit LE, 3 explicit BIG endian, 4 deflated, 5 any encapsulated,
+   other = a UID that is not a transfer syntax (pydicom raises ValueError) *)
+Definition ts_known (t : Z) : bool := (0 <=? t) && (t <=? 5).
+Definition ts_le (t : Z) : bool := negb (t =? 3).
+Definition ts_stored (t : Z) : Z := if t =? 0 then 1 else t.
+
+(* enumerations: None / Some 0 = '' (kept as it is) / 1..k members / else refused *)
+Definition enum_ok (k : Z) (blank_ok : bool) (o : option Z) : bool :=
+  match o with
+  | None => true
+  | Some v => ((v =? 0) && blank_ok) || ((1 <=? v) && (v <=? k))
+  end.
+Definition lo_ok (o : option str) : bool :=
+  match o with None => true | Some s => hd_guard LO s end.
+
+Record sop_args := {
+  a_ts : Z;
+  a_study : str; a_series : str; a_instance : str; a_class : str;
+  a_series_number : option Z; a_instance_number : option Z;
+  a_sex : option Z;                       (* M F O = 1 2 3 *)
+  a_series_desc : option str; a_manufacturer : option str; a_model : option str;
+  a_serial : option str; a_software : option str;
+  a_institution : option str; a_department : option str;
+  a_qualification : option Z              (* PRODUCT RESEARCH SERVICE = 1 2 3 *)
+}.
+
+Record sop_obj := {
+  fm_ts : Z; fm_class : str; fm_instance : str;          (* file meta information *)
+  ds_class : str; ds_instance : str; ds_study : str; ds_series : str;
+  ds_series_number : Z; ds_instance_number : Z;
+  ds_sex : option Z;
+  ds_lo : list (option str);   (* SeriesDescription Manufacturer ManufacturerModelName DeviceSerialNumber
+                                  SoftwareVersions InstitutionName InstitutionalDepartmentName; None = absent/empty *)
+  ds_qualification : option Z
+}.
+
+(* the guards in source order; the first failing one decides the exception *)
+Definition sop_init (a : sop_args) : res sop_obj :=
+  if negb (ts_known (a_ts a)) then Err "ValueError" else
+  if negb (ts_le (a_ts a)) then Err "ValueError" else
+  if negb (enum_ok 3 true (a_sex a)) then Err "ValueError" else
+  match a_series_number a with
+  | None => Err "TypeError"
+  | Some sn =>
+    if sn <? 1 then Err "ValueError" else
+    if negb (lo_ok (a_series_desc a)) then Err "ValueError" else
+    if negb (lo_ok (a_manufacturer a)) then Err "ValueError" else
+    if negb (lo_ok (a_model a)) then Err "ValueError" else
+    if negb (lo_ok (a_serial a)) then Err "ValueError" else
+    if negb (lo_ok (a_software a)) then Err "ValueError" else
+    if negb (lo_ok (a_institution a)) then Err "ValueError" else
+    if negb (match a_institution a with None => true | Some _ => lo_ok (a_department a) end)
+    then Err "ValueError" else
+    match a_instance_number a with
+    | None => Err "TypeError"
+    | Some inn =>
+      if inn <? 1 then Err "ValueError" else
+      if negb (enum_ok 3 false (a_qualification a)) then Err "ValueError" else
+      Ok {| fm_ts := ts_stored (a_ts a); fm_class := a_class a; fm_instance := a_instance a;
+            ds_class := a_class a; ds_instance := a_instance a;
+            ds_study := a_study a; ds_series := a_series a;
+            ds_series_number := sn; ds_instance_number := inn;
+            ds_sex := match a_sex a with Some 0 => None | o => o end;
+            ds_lo := [a_series_desc a; a_manufacturer a; a_model a; a_serial a; a_software a;
+                      a_institution a;
+                      match a_institution a with None => None | Some _ => a_department a end];
+            ds_qualification := a_qualification a |}
+    end
+  end.
+
+Definition sop_accepts (a : sop_args) : bool :=
+  ts_known (a_ts a) && ts_le (a_ts a) && enum_ok 3 true (a_sex a) &&
+  match a_series_number a with Some sn => 1 <=? sn | None => false end &&
+  lo_ok (a_series_desc a) && lo_ok (a_manufacturer a) && lo_ok (a_model a) && lo_ok (a_serial a) &&
+  lo_ok (a_software a) && lo_ok (a_institution a) &&
+  match a_institution a with None => true | Some _ => lo_ok (a_department a) end &&
+  match a_instance_number a with Some n => 1 <=? n | None => false end &&
+  enum_ok 3 false (a_qualification a).
+
+(* several objects built by one call (create_segmentation_pyramid): the same
+   arguments, one SOP Instance UID per object *)
+Definition with_instance (a : sop_args) (u : str) : sop_args :=
+  {| a_ts := a_ts a; a_study := a_study a; a_series := a_series a; a_instance := u; a_class := a_class a;
+     a_series_number := a_series_number a; a_instance_number := a_instance_number a; a_sex := a_sex a;
+     a_series_desc := a_series_desc a; a_manufacturer := a_manufacturer a; a_model := a_model a;
+     a_serial := a_serial a; a_software := a_software a; a_institution := a_institution a;
+     a_department := a_department a; a_qualification := a_qualification a |}.
+Fixpoint build_levels (a : sop_args) (ids : list str) : res (list sop_obj) :=
+  match ids with
+  | [] => Ok []
+  | u :: r => bind (sop_init (with_instance a u)) (fun o => bind (build_levels a r) (fun os => Ok (o :: os)))
+  end.
+
+(* ------------------------------------------------------------------ *)
+(** * Part 9: one segment plane (seg/sop.py _get_segment_pixel_array)    *)
+(* ------------------------------------------------------------------ *)
+
+(* ownership of a numpy result relative to the array the caller passed *)
+Inductive own := View | Fresh.
+Inductive aop :=
+| OKeep        (* the same array object *)
+| OSlice       (* basic indexing: a view *)
+| OCopy        (* astype / arithmetic / comparison / around: a new array *)
+| OInplace.    (* x *= k, out=x: writes into x's buffer *)
+(* [run_ops o ops] = (ownership of the result, did a write reach the caller's buffer) *)
+Fixpoint run_ops (o : own) (ops : list aop) : own * bool :=
+  match ops with
+  | [] => (o, false)
+  | op :: r =>
+      let o' := match op with OCopy => Fresh | _ => o end in
+      let w := match op, o with OInplace, View => true | _, _ => false end in
+      let (o2, w2) := run_ops o' r in (o2, w || w2)
+  end.
+
+Record plane_cfg := {
+  p_float : bool;        (* dtype float32 / float64 *)
+  p_ndim3 : bool;        (* Rows x Columns x Segments (else a label map / single plane) *)
+  p_single1 : bool;      (* described segment numbers are exactly [1] *)
+  p_dtype_eq : bool;     (* the array already has the output dtype *)
+  p_fractional : bool;   (* segmentation type FRACTIONAL *)
+  p_mfv1 : bool          (* max_fractional_value = 1 *)
+}.
+(* the numpy operations of the kernel, in source order *)
+Definition plane_ops_gen (scale : aop) (c : plane_cfg) : list aop :=
+  if p_float c then
+    [if p_ndim3 c then OSlice else OKeep; OCopy; OCopy; OCopy]
+  else
+    (if p_ndim3 c then OSlice :: (if p_dtype_eq c then [] else [OCopy])
+     else if p_single1 c then (if p_dtype_eq c then [OKeep] else [OCopy])
+     else [OCopy; OCopy])
+    ++ (if p_fractional c && negb (p_mfv1 c) then [scale] else []).
+Definition plane_ops := plane_ops_gen OCopy.          (* segment_array = segment_array * k *)
+Definition plane_ops_old := plane_ops_gen OInplace.   (* segment_array *= k  (before fix, D24) *)
+
+(* _check_and_cast_pixel_array: what it returns relative to its argument *)
+Record cast_cfg := { c_float : bool; c_type : Z (* 0 BINARY 1 FRACTIONAL 2 LABELMAP *); c_ndim4 : bool; c_one : bool }.
+Definition cast_ops (c : cast_cfg) : list aop :=
+  (if c_float c && negb (c_type c =? 1) then [OCopy] else [OKeep]) ++
+  (if c_type c =? 2 then (if c_ndim4 c then (if c_one c then [OSlice; OCopy] else [OCopy; OCopy; OCopy]) else [OCopy])
+   else []).
+(* the path of the caller's array to one encoded plane: cast, take the plane, take the segment *)
+Definition ctor_chain (c1 : cast_cfg) (c2 : plane_cfg) : list aop := cast_ops c1 ++ [OSlice] ++ plane_ops c2.
+
+(* values: round half to even of n/d (np.around), d > 0 *)
+Definition rhe (n d : Z) : Z :=
+  let q := n / d in let r := n mod d in
+  if 2 * r <? d then q else if d <? 2 * r then q + 1 else if Z.even q then q else q + 1.
+(* float pixels are given in quarters (4 = 1.0) *)
+Definition plane_value (c : plane_cfg) (seg mfv : Z) (px : list Z) : Z :=
+  let ch := if p_ndim3 c then nth (Z.to_nat (seg - 1)) px 0 else hd 0 px in
+  if p_float c then rhe (ch * mfv) 4
+  else
+    let b := if p_ndim3 c then ch else if p_single1 c then ch else (if ch =? seg then 1 else 0) in
+    if p_fractional c && negb (p_mfv1 c) then b * mfv else b.
+Definition seg_plane (c : plane_cfg) (seg mfv : Z) (plane : list (list Z)) : bool * list Z :=
+  (snd (run_ops View (plane_ops c)), map (plane_value c seg mfv) plane).
+
+(* ------------------------------------------------------------------ *)
+(** * boundary functions for parts 8-9                                  *)
+(* ------------------------------------------------------------------ *)
+Definition vostr (o : option str) : val := vopt vz_list o.
+Definition voz (o : option Z) : val := vopt VZ o.
+Definition vsop (o : sop_obj) : val :=
+  VL [VZ (fm_ts o); vz_list (fm_class o); vz_list (fm_instance o); vz_list (ds_class o); vz_list (ds_instance o);
+      vz_list (ds_study o); vz_list (ds_series o); VZ (ds_series_number o); VZ (ds_instance_number o);
+      voz (ds_sex o); VL (map vostr (ds_lo o)); voz (ds_qualification o)].
+Definition run_sop_init (a : sop_args) : val := vres vsop (sop_init a).
+Definition run_seg_plane (fl nd3 s1 deq fr : bool) (seg mfv : Z) (plane : list (list Z)) : val :=
+  let c := {| p_float := fl; p_ndim3 := nd3; p_single1 := s1; p_dtype_eq := deq; p_fractional := fr;
+              p_mfv1 := mfv =? 1 |} in
+  let r := seg_plane c seg mfv plane in VL [VB (fst r); vz_list (snd r)].
